@@ -30,10 +30,12 @@ TRUSTED = [
     "the noise LAW is the ideal real-valued law with the calibrated parameter (Laplace / uniform / staircase / normal / "
     "discrete normal densities); that the samplers realise these laws from their uniforms is C03's business, the "
     "granularity of double-precision uniforms is not modelled",
-    "cited, not re-proved (explicit hypotheses of the Lean theorems, never axioms): Balle & Wang 2018 Thm 8 (the "
-    "Gaussian mechanism is (eps,delta)-DP iff Phi(D/2s - eps s/D) - e^eps Phi(-D/2s - eps s/D) <= delta), "
-    "Canonne-Kamath-Steinke 2020 Thm 7 (discrete analogue), Mironov 2012 Thm 1 (snapping), Holohan et al. 2020 "
-    "Lemma 3.4 (normaliser ratio of the bounded Laplace), Geng et al. 2018 (truncated Laplacian)",
+    "cited, not re-proved (explicit hypotheses of the Lean theorems, never axioms): Canonne-Kamath-Steinke 2020 Thm 7 "
+    "(discrete Gaussian), Mironov 2012 Thm 1 (snapping). No longer cited (now proved in Lean): Balle & Wang 2018 Thm 8, "
+    "sufficiency (Phi(D/2s - eps s/D) - e^eps Phi(-D/2s - eps s/D) <= delta => the normal law is (eps,delta)-DP: "
+    "gauss_dp_of_balleWang), Holohan et al. 2020 Lemma 3.4 (bounded_domain_normaliser_bound), Geng et al. 2018 "
+    "(bounded_noise_dp), the classical Gaussian tail bound (gauss_classical_dp); erfc := 2/sqrt(pi) int_x^inf e^-t^2, "
+    "normal law = Mathlib's gaussianReal",
     "the direct check evaluates closed-form divergences with python `decimal` at 60 digits (harness/contlaw.py); it is "
     "search support and residual validation, not counted as an obligation",
 ]
@@ -41,10 +43,14 @@ UNPROVED = [
     "on which side of the root the numerically solved calibrations settle (bounded-domain scale, analytic and discrete "
     "Gaussian sigma) is not provable even in exact arithmetic (a bracket midpoint is returned); it is decided on every "
     "run by the direct hockey-stick check",
-    "Gaussian tail facts (Balle-Wang characterisation, Mills-ratio bound for the classical sigma), truncation of the "
-    "discrete-Gaussian sums and the rtol=1e-6 stopping rule: validated numerically only",
-    "bounded-noise and bounded-domain Laplace: the end-to-end (eps,delta) statement is `_partial` (tail-mass / "
-    "normaliser-ratio facts are hypotheses); the divergence is checked numerically on every run",
+    "analytic Gaussian: PROVED that objective <= 0 at the returned scale implies (eps,delta)-DP of the normal law "
+    "(analytic_gauss_dp_of_private_side, true erfc); the residual is the side of the root (first item) and that the "
+    "double-precision erfc of the code tracks the true one. Truncation of the discrete-Gaussian sums and the rtol=1e-6 "
+    "stopping rule: validated numerically only. (The classical Gaussian for eps <= 1 is PROVED end to end: "
+    "gauss_classical_dp, gauss_classical_dp_full_true.)",
+    "bounded-domain Laplace: PROVED (eps,delta)-DP for every scale b with _f(b) <= b (bounded_domain_dp_of_fixpoint); "
+    "that the returned bracket midpoint satisfies _f(b) <= b is the residual (first item). Bounded-noise Laplace: "
+    "PROVED end to end (bounded_noise_dp = bounded_noise_dp_full, delta <= 1/2)",
     "floating-point rounding of the calibrations (theorems over the reals)",
 ]
 RULE = ("parameter points (mechanism, eps in [1e-3,50] within the mechanism's admissible range, delta in [0,1) as "
